@@ -85,7 +85,7 @@ def run(eng, ctx):
     for key in universe:
         def ov(t, key=key):
             return ("const", key) if t == ("field", "identity") else None
-        s2 = SymEval(eng.ce, f, override=ov).run()
+        s2 = eng.symeval(f.qualname, override=ov)
         rets2 = [e for e in s2.effects if e.kind == "return" and e.handler is None]
         if len(rets2) == 1 and is_const(rets2[0].term):
             if rets2[0].term[1]:
